@@ -84,21 +84,25 @@ def decimalToStr (repr : Str) : Str :=
 
 /-! ### the reprs Python produces for finite floats (contract of `str(float)`, trusted; sampled by the harness) -/
 
+/-- `d+(.d+)?` -/
+def unsignedPlain (b : Str) : Bool :=
+  match b.dropWhile Char.isDigit with
+  | [] => !(b.takeWhile Char.isDigit).isEmpty
+  | '.' :: fr => !(b.takeWhile Char.isDigit).isEmpty && !fr.isEmpty && allDigits fr
+  | _ => false
+
 /-- `-?d+(.d+)?` : repr of a finite float (or int) without exponent -/
 def isPlainRepr (s : Str) : Bool :=
-  let b := match s with | '-' :: r => r | r => r
-  let ip := b.takeWhile Char.isDigit
-  match b.dropWhile Char.isDigit with
-  | [] => !ip.isEmpty
-  | '.' :: fr => !ip.isEmpty && !fr.isEmpty && allDigits fr
-  | _ => false
+  match s with
+  | '-' :: r => unsignedPlain r
+  | r => unsignedPlain r
 
 /-- `-?d+(.d+)?e[+-]?d+` : repr of a finite float in scientific notation -/
 def isSciRepr (s : Str) : Bool :=
-  let b := match s with | '-' :: r => r | r => r
-  let m := b.takeWhile (fun c => !isE c)
-  match b.dropWhile (fun c => !isE c) with
-  | _ :: ex => isPlainRepr m && m.head? != some '-' && isInteger ex
-  | [] => false
+  unsignedPlain (mantissa s) &&
+  (match (dropSign s).dropWhile (fun c => !isE c) with
+   | _ :: ex => isInteger ex
+   | [] => false) &&
+  (match s with | '+' :: _ => false | _ => true)
 
 end CR.XmlNum
